@@ -1,6 +1,13 @@
 /* H-fs harness for C17 (observe persistence survives a process kill).
  *
  *   persist <save_freq> <event> <event> ...
+ *   persistep <save_freq> <kinds> <event> <event> ...
+ *
+ * persist: the server context has one UDP endpoint (127.0.0.1:45683) and there are NCLI clients.
+ * persistep: <kinds> = 1..3 distinct digits of 0..2 = the UDP endpoints of the context in creation order (0 = 127.0.0.1:45683,
+ * 1 = 127.0.0.1:45685, 2 = 127.0.0.2:45683; coap_new_endpoint() prepends, so context->endpoint lists them in reverse);
+ * there are 3*NCLI clients and client c talks to the endpoint at position (c / NCLI) % #endpoints; every restart (clean or
+ * after a kill) creates the same endpoints in the same order.
  *
  * events (i = resource index 0..NRES-1, c = client index 0..NCLI-1, v = token version 0..9):
  *   c<i>        client 0 PUTs to the unknown path res_name[i]  -> the unknown-resource handler creates an
@@ -214,7 +221,10 @@ ssize_t __wrap_coap_socket_send(coap_socket_t *sock, coap_session_t *session, co
 
 /* ---------------------------------------------------------------- the server */
 static coap_context_t *g_ctx;
-static coap_endpoint_t *g_ep;
+#define MAXEP 3
+static coap_endpoint_t *g_eps[MAXEP];
+static int g_kinds[MAXEP] = {0}, g_neps = 1, g_ncli = NCLI;
+static coap_endpoint_t *ep_of(int c) { return g_eps[(c / NCLI) % g_neps]; }
 static unsigned g_f = 1;
 static uint16_t g_mid = 100;
 static int in_notify;
@@ -253,13 +263,15 @@ static void server_new(void) {
   coap_address_t a;
   coap_resource_t *ur;
   g_ctx = coap_new_context(NULL);
-  coap_address_init(&a);
-  a.addr.sin.sin_family = AF_INET;
-  a.addr.sin.sin_port = htons(SRV_PORT);
-  a.addr.sin.sin_addr.s_addr = htonl(INADDR_LOOPBACK);
-  a.size = sizeof(struct sockaddr_in);
-  g_ep = coap_new_endpoint(g_ctx, &a, COAP_PROTO_UDP);
-  if (!g_ep) { printf("fail-endpoint"); fflush(stdout); _exit(3); }
+  for (int e = 0; e < g_neps; e++) {
+    coap_address_init(&a);
+    a.addr.sin.sin_family = AF_INET;
+    a.addr.sin.sin_port = htons(g_kinds[e] == 1 ? SRV_PORT + 2 : SRV_PORT);
+    a.addr.sin.sin_addr.s_addr = htonl(g_kinds[e] == 2 ? INADDR_LOOPBACK + 1 : INADDR_LOOPBACK);
+    a.size = sizeof(struct sockaddr_in);
+    g_eps[e] = coap_new_endpoint(g_ctx, &a, COAP_PROTO_UDP);
+    if (!g_eps[e]) { printf("fail-endpoint"); fflush(stdout); _exit(3); }
+  }
   ur = coap_resource_unknown_init2(hnd_unknown, 0);
   coap_add_resource(g_ctx, ur);
   if (!coap_persist_startup(g_ctx, "dyn", "obs", "cnt", g_f)) { printf("fail-startup"); fflush(stdout); _exit(3); }
@@ -268,14 +280,14 @@ static void server_new(void) {
 static coap_session_t *sess(int c) {
   coap_packet_t pkt; coap_tick_t now;
   memset(&pkt, 0, sizeof pkt);
-  coap_address_copy(&pkt.addr_info.local, &g_ep->bind_addr);
+  coap_address_copy(&pkt.addr_info.local, &ep_of(c)->bind_addr);
   coap_address_init(&pkt.addr_info.remote);
   pkt.addr_info.remote.addr.sin.sin_family = AF_INET;
   pkt.addr_info.remote.addr.sin.sin_port = htons(CLI_PORT + c);
   pkt.addr_info.remote.addr.sin.sin_addr.s_addr = htonl(INADDR_LOOPBACK);
   pkt.addr_info.remote.size = sizeof(struct sockaddr_in);
   coap_ticks(&now);
-  return coap_endpoint_get_session(g_ep, &pkt, now);
+  return coap_endpoint_get_session(ep_of(c), &pkt, now);
 }
 
 static size_t mk_req(uint8_t *out, size_t cap, int code, const uint8_t *tok, size_t tl, const char *path, int observe,
@@ -340,7 +352,7 @@ static int run_event(const char *ev) {
     nsent[i] = 0;      /* a resource created later under the same name is a new resource: its Observe values start afresh */
     return 1;
   }
-  if ((ev[0] == 'a' || ev[0] == 'x') && sscanf(ev + 1, "%d.%d.%d", &c, &i, &v) == 3 && c >= 0 && c < NCLI && i >= 0 &&
+  if ((ev[0] == 'a' || ev[0] == 'x') && sscanf(ev + 1, "%d.%d.%d", &c, &i, &v) == 3 && c >= 0 && c < g_ncli && i >= 0 &&
       i < NRES && v >= 0 && v < 10) {
     tok[0] = (uint8_t)c; tok[1] = (uint8_t)i; tok[2] = (uint8_t)v; tok[3] = 0xAA;
     n = mk_req(msg, sizeof msg, COAP_REQUEST_CODE_GET, tok, 4, res_name[i], ev[0] == 'a' ? 0 : 1, NULL);
@@ -448,7 +460,7 @@ static void dump_obs(void) {
       coap_opt_iterator_t oi; coap_opt_t *ob = coap_check_option(p, COAP_OPTION_OBSERVE, &oi);
       if (t.length == 4 && t.s[3] == 0xAA) { c = t.s[0]; i = t.s[1]; v = t.s[2]; }
       if (i >= 0 && i < NRES && pdu_path_idx(p) == i && ob && coap_opt_length(ob) == 0 && p->code == COAP_REQUEST_CODE_GET &&
-          proto == COAP_PROTO_UDP && !memcmp(&la, &g_ep->bind_addr, sizeof la) &&
+          proto == COAP_PROTO_UDP && c < g_ncli && !memcmp(&la, &ep_of(c)->bind_addr, sizeof la) &&
           ntohs(tu.remote.addr.sin.sin_port) == CLI_PORT + c && ol == -1) ok = 1;
     }
     coap_delete_pdu(p);
@@ -512,8 +524,9 @@ static void dump_restart(void) {
         coap_bin_const_t t = s->pdu->actual_token;
         if (ns < 64 && t.length == 4) {
           subs[ns][0] = t.s[0]; subs[ns][1] = t.s[1]; subs[ns][2] = t.s[2];
-          /* the session must be the client's */
-          if (ntohs(s->session->addr_info.remote.addr.sin.sin_port) != CLI_PORT + t.s[0] || t.s[1] != i) subs[ns][2] = 99;
+          /* the session must be the client's, on the endpoint the client talks to */
+          if (ntohs(s->session->addr_info.remote.addr.sin.sin_port) != CLI_PORT + t.s[0] || t.s[1] != i ||
+              t.s[0] >= g_ncli || s->session->endpoint != ep_of(t.s[0])) subs[ns][2] = 99;
           ns++;
         }
       }
@@ -636,8 +649,15 @@ static void h_init(void) {
 static void step(char *line) {
   char *w[80]; char cwd[256];
   int n = h_words(line, w, 80);
-  int all = 1;
-  if (n < 2 || strcmp(w[0], "persist")) { printf("bad-op"); return; }
+  int all = 1, e0 = 2;
+  if (n >= 2 && !strcmp(w[0], "persist")) { g_neps = 1; g_kinds[0] = 0; g_ncli = NCLI; }
+  else if (n >= 3 && !strcmp(w[0], "persistep")) {
+    size_t l = strlen(w[2]);
+    if (l < 1 || l > MAXEP || strspn(w[2], "012") != l) { printf("bad-op"); return; }
+    for (size_t a = 0; a < l; a++) for (size_t b = a + 1; b < l; b++) if (w[2][a] == w[2][b]) { printf("bad-op"); return; }
+    g_neps = (int)l; g_ncli = 3 * NCLI; e0 = 3;
+    for (size_t a = 0; a < l; a++) g_kinds[a] = w[2][a] - '0';
+  } else { printf("bad-op"); return; }
   g_f = (unsigned)atoi(w[1]);
   if (g_f < 1 || g_f > 1000) { printf("bad-op"); return; }
   if (!getcwd(cwd, sizeof cwd)) { printf("fail"); return; }
@@ -648,7 +668,7 @@ static void step(char *line) {
   trk = 0; kill_at = 0;
   server_new();
   printf("f=%u", g_f);
-  for (int e = 2; e < n; e++) {
+  for (int e = e0; e < n; e++) {
     const char *ev = w[e];
     long k; int completed = 0;
     char *prev = NULL; long from = 1;
